@@ -316,6 +316,87 @@ func reconfShortMain(args []string) int {
 		col.add(Mismatch{Props: []string{"C08", "C20"}, What: "panic", Got: fmt.Sprint(pan), Note: stack})
 	}
 	col.done([]byte(`{"scenario":"descriptor shortage"}`), true, 6)
+	// second scenario: NO descriptor is free when a cache that has a working watcher is reconfigured. Closing the
+	// old watcher frees just what the new one needs; nothing is left to open a directory with. While that lasts
+	// nothing can be read; once it is over the cache has to answer from the directory again.
+	pan, stack, _ = guarded(60*time.Second, func() {
+		b := filepath.Join(root, "b")
+		_ = os.Mkdir(b, 0o755)
+		_ = os.WriteFile(filepath.Join(b, "x.json"), specBytes("vb.com/cls", 1), 0o644)
+		cache, _ := cdi.NewCache(cdi.WithSpecDirs(b), cdi.WithAutoRefresh(true))
+		if cache.GetDevice("vb.com/cls=dev") == nil || len(cache.GetErrors()) != 0 {
+			report(Mismatch{What: "TOOL-precondition", Props: []string{"TOOL"}, Got: fmt.Sprint(cache.ListDevices(), cache.GetErrors())})
+			return
+		}
+		var hold []*os.File
+		_ = syscall.Getrlimit(syscall.RLIMIT_NOFILE, &old)
+		lim := syscall.Rlimit{Cur: uint64(countResources().Fds + 40), Max: old.Max}
+		_ = syscall.Setrlimit(syscall.RLIMIT_NOFILE, &lim)
+		for {
+			f, err := os.Open("/dev/null")
+			if err != nil {
+				break
+			}
+			hold = append(hold, f)
+		}
+		_ = cache.Configure(cdi.WithSpecDirs(b), cdi.WithAutoRefresh(true))
+		during := fmt.Sprint(cache.ListDevices(), cache.GetErrors())
+		for _, f := range hold {
+			f.Close()
+		}
+		_ = syscall.Setrlimit(syscall.RLIMIT_NOFILE, &old)
+		if cache.GetDevice("vb.com/cls=dev") == nil {
+			report(Mismatch{What: "query-after-total-exhaustion-during-reconfiguration-is-stale", Want: "vb.com/cls=dev (a new cache with these options lists it)",
+				Got: fmt.Sprint(cache.ListDevices(), cache.GetErrors()), Note: "during the exhaustion: " + during})
+		}
+		_ = cache.Configure(cdi.WithAutoRefresh(false))
+	})
+	if pan != nil {
+		col.add(Mismatch{Props: []string{"C08", "C20"}, What: "panic", Got: fmt.Sprint(pan), Note: stack})
+	}
+	col.done([]byte(`{"scenario":"total descriptor exhaustion at a reconfiguration"}`), true, 2)
+	// third scenario, the counter-example TLC gives for CacheAuto with FIX_RETRY = FALSE: the directory appears, the
+	// descriptors run out, a file is written, a query adds the watch (that needs no descriptor) and cannot scan;
+	// the shortage ends; nothing changes any more, yet queries have to show the file
+	pan, stack, _ = guarded(60*time.Second, func() {
+		c := filepath.Join(root, "c")
+		cache, _ := cdi.NewCache(cdi.WithSpecDirs(c), cdi.WithAutoRefresh(true))
+		_ = os.Mkdir(c, 0o755)
+		var hold []*os.File
+		_ = syscall.Getrlimit(syscall.RLIMIT_NOFILE, &old)
+		lim := syscall.Rlimit{Cur: uint64(countResources().Fds + 40), Max: old.Max}
+		_ = syscall.Setrlimit(syscall.RLIMIT_NOFILE, &lim)
+		f0, _ := os.OpenFile(filepath.Join(c, "x.json"), os.O_CREATE|os.O_WRONLY, 0o644) // the writer is another process in reality
+		for {
+			f, err := os.Open("/dev/null")
+			if err != nil {
+				break
+			}
+			hold = append(hold, f)
+		}
+		if f0 != nil {
+			_, _ = f0.Write(specBytes("vc.com/cls", 1))
+			f0.Close()
+			if g, err := os.Open("/dev/null"); err == nil { // take the descriptor the writer gave back
+				hold = append(hold, g)
+			}
+		}
+		during := fmt.Sprint(cache.ListDevices(), cache.GetErrors())
+		for _, f := range hold {
+			f.Close()
+		}
+		_ = syscall.Setrlimit(syscall.RLIMIT_NOFILE, &old)
+		time.Sleep(50 * time.Millisecond)
+		if cache.GetDevice("vc.com/cls=dev") == nil {
+			report(Mismatch{What: "query-after-a-scan-that-ran-out-of-descriptors-is-stale", Want: "vc.com/cls=dev",
+				Got: fmt.Sprint(cache.ListDevices(), cache.GetErrors()), Note: "during the exhaustion: " + during})
+		}
+		_ = cache.Configure(cdi.WithAutoRefresh(false))
+	})
+	if pan != nil {
+		col.add(Mismatch{Props: []string{"C08", "C20"}, What: "panic", Got: fmt.Sprint(pan), Note: stack})
+	}
+	col.done([]byte(`{"scenario":"a query's scan runs out of descriptors"}`), true, 2)
 	return col.finish(start)
 }
 
